@@ -4,6 +4,8 @@ CONSTANTS
   QosOf <- Q_122
   MaxFaults = 3
   SessionLoss = TRUE
+  ClearAfterRequeue = TRUE
+  KeepOldWaiter = FALSE
   LossyWrites = FALSE
 INVARIANT EmitScript
 VIEW NoHist
